@@ -154,6 +154,7 @@ func (f *fsm) run() {
 			desired fsmState
 			err     error
 		)
+		verifPoint("fsm.enter")
 		switch t.to {
 		case disabledState:
 			return
